@@ -13,7 +13,6 @@ type (
 	Once      = sync.Once
 	Cond      = sync.Cond
 	Map       = sync.Map
-	Pool      = sync.Pool
 	Locker    = sync.Locker
 )
 
@@ -152,4 +151,37 @@ func (wg *WaitGroup) Go(f func()) {
 		defer wg.Done()
 		f()
 	})
+}
+
+// Pool: sync.Pool keeps per-P caches and is emptied by the garbage collector, so which object a
+// Get returns depends on thread placement and GC timing. Inside a simulation that would make runs
+// irreproducible; here it is a plain LIFO stack (still a legal sync.Pool behaviour).
+type Pool struct {
+	New   func() any
+	mu    sync.Mutex
+	items []any
+}
+
+func (p *Pool) Get() any {
+	p.mu.Lock()
+	if n := len(p.items); n > 0 {
+		x := p.items[n-1]
+		p.items = p.items[:n-1]
+		p.mu.Unlock()
+		return x
+	}
+	p.mu.Unlock()
+	if p.New != nil {
+		return p.New()
+	}
+	return nil
+}
+
+func (p *Pool) Put(x any) {
+	if x == nil {
+		return
+	}
+	p.mu.Lock()
+	p.items = append(p.items, x)
+	p.mu.Unlock()
 }
